@@ -5,3 +5,4 @@ Definition k_flow_read_asn1_boolean : pfun :=
     SAssign ["raw_bool"; "consumed"] (PCall "_validate_tag/header,hint" [(PName "data"); (PName "tag"); (PCall "ASN1Tag.universal_tag" [(PName "TypeTagNumber.BOOLEAN"); (PBool false)]); (PName "header"); (PName "hint")]);
     SReturn (PTuple [(PCmp "!=" (PMeth "replace" (PMeth "tobytes" (PName "raw_bool") []) [(PBytes [0]); (PBytes [])]) (PBytes [])); (PName "consumed")])
   ] |}.
+Definition k_flow_read_asn1_boolean_defaults : list (string * pexp) := [("tag", PNone); ("header", PNone); ("hint", PNone)].
